@@ -15,7 +15,7 @@ from props.c10 import gqmat, gqlist
 
 PROP = "C11"
 LEVEL = "proof"
-INCLUDE = ["w4s_c11"]     # w4-skel: generated control-flow skeleton of the MU loop (Props/W4SC11.v) + replay stream sk_mu
+INCLUDE = ['w4s_c11', 'w4s_c11b']     # w4-skel: generated control-flow skeleton of the MU loop (Props/W4SC11.v) + replay stream sk_mu
 GEN_UNITS = []
 SHARD = 8
 COQ_TARGETS = ["Props/C11.vo", "Props/C11w4.vo", "Props/C11w5.vo", "Props/C11w5b.vo", "Model/C11Check.vo", "Model/C11GenCheck.vo", "Model/C11Replay.vo",
